@@ -52,6 +52,10 @@ SCENARIOS = {
     "face-x:slave-name-reused": {"cells": [(0, 0, 0), (1, 0, 0)],
                                  "patches": [(0, "right", "m"), (1, "left", "s"), (1, "right", "s"), (0, "left", "walls")],
                                  "merges": [("m", "s")]},
+    "row4:slave-of-one-pair-is-master-of-the-next": {
+        "cells": [(0, 0, 0), (1, 0, 0), (2, 0, 0), (3, 0, 0)],
+        "patches": [(0, "right", "a_right"), (1, "left", "mid"), (2, "right", "mid"), (3, "left", "c_left")],
+        "merges": [("a_right", "mid"), ("mid", "c_left")]},
     "row3:plain-patches": {"cells": [(0, 0, 0), (1, 0, 0), (2, 0, 0)],
                            "patches": [(0, "left", "inlet"), (2, "right", "outlet"), (1, "top", "lid")], "merges": []},
 }
